@@ -1201,10 +1201,12 @@ Section DelivMain.
       - auto.
       - rewrite Hq by (right; right; right; right; left; eauto). specialize (G3 t H). lia.
       - rewrite Hq by auto. lia.
-      - rewrite Hq by (repeat right; eauto). lia.
+      - assert (cnt (bad_tid (st_threads st (threads st ++ [(n, p)]))) (threads st) <= cnt (bad_tid st) (threads st))
+          by (apply bad_tid_mono; intros; simpl; auto).
+        rewrite Hq by (repeat right; eauto). lia.
       - rewrite allthr_app. simpl. rewrite P1, Hpt. auto.
       - rewrite allthr_app. simpl. rewrite P2, Hpk. auto. }
-    split; [simpl; rewrite cnt_app; simpl; rewrite Hh; lia|].
+    split; [change (hl (st_threads st (threads st ++ [(n, p)]))) with (hl st); simpl; rewrite cnt_app; simpl; rewrite Hh; lia|].
     split; [simpl; rewrite cnt_app; simpl; rewrite Hq by auto; lia|].
     split; [|exact HA].
     intros s. eapply (DO_keep ev_bad) with (a := []); [apply HD|reflexivity|reflexivity|reflexivity|reflexivity|auto| |].
@@ -1214,7 +1216,7 @@ Section DelivMain.
 
   Lemma DI_step : forall st a st', DI st -> stepf st a = Some st' -> DI st'.
   Proof.
-    intros st a st' HDI Hs. pose proof HDI as (HR & HC & HT & HU & HH & HK & HD & HA).
+    intros st a st' HDI Hs. pose proof HDI as (HR & HC & HT & HU & HH & HK & HD & HA). pose proof Hs as Hs0.
     destruct a; simpl in Hs.
     - eapply DI_spawn; [exact HDI|exact Hs| | | | |]; intros; try (destruct op; reflexivity).
       destruct H as [->|[->|[[t ->]|[[t [s ->]]|[[t ->]|[[s ->]|[[s [e ->]]|[S ->]]]]]]]]; destruct op; reflexivity.
@@ -1224,13 +1226,14 @@ Section DelivMain.
       + unfold uprog, cntl. simpl. rewrite (proj2 (Nat.leb_gt (ntrig st) t)) by lia. destruct op; reflexivity.
     - eapply DI_spawn; [exact HDI|exact Hs| | | | |]; intros; try reflexivity.
       destruct H as [->|[->|[[t ->]|[[t [s ->]]|[[t ->]|[[s ->]|[[s [e ->]]|[S ->]]]]]]]]; reflexivity.
-    - pose proof Hs as Hs0. apply step_AStep in Hs. destruct Hs as (i & rest & st1 & push & sp & Hl & He & Heq).
+    - apply step_AStep in Hs0. destruct Hs0 as (i & rest & st1 & push & sp & Hl & He & Heq).
       assert (Hlk : forall t, (exists op, i = IULock t op) -> t < ntrig st).
       { intros t [op ->]. destruct (hl st (IULock t op)) eqn:E.
         - pose proof (cnt_lookup_ge (hl st) _ _ _ _ Hl E). lia.
         - simpl in E. apply Nat.leb_gt in E. auto. }
-      assert (HR' : RG st') by (eapply RG_step; eauto).
-      destruct (WI_step fixed flt wresf ev_bad hbfail eq_refl _ _ _ HR HC HT Hs0) as [HC' HT'].
+      assert (Hs1 : stepf st (AStep th x) = Some st') by exact Hs.
+      assert (HR' : RG st') by (exact (RG_step fixed flt wresf ev_bad hbfail _ _ _ HR Hs1)).
+      destruct (WI_step fixed flt wresf ev_bad hbfail eq_refl _ _ _ HR HC HT Hs1) as [HC' HT'].
       unfold DI. split; auto. split; auto. split; auto. subst st'. simpl.
       split; [eapply UD_ext; [| | | |eapply (UD_astep fixed flt wresf ev_bad hbfail); eauto]; reflexivity|].
       split; [apply (HL_astep fixed flt wresf ev_bad hbfail _ _ _ _ _ _ _ _ HR HH Hl He)|].
